@@ -704,14 +704,18 @@ Section Top.
   Qed.
   Lemma acc_none (fr : frames) (st : store) id this (sc : frame) x :
     x <> "inputs" -> rec_get sc x <> None ->
-    lookup_frame (match lookup fr "inputs" with Some i => [("inputs", i)] | None => [] end ++
+    lookup_frame (match lookup_frame sc "inputs" with   (* F9 repaired *)
+                  | Some _ => []
+                  | None => match lookup fr "inputs" with Some i => [("inputs", i)] | None => [] end
+                  end ++
                   match lam_name st id with
                   | Some n => match lookup_frame sc n with Some _ => [] | None => [(n, this)] end
                   | None => []
                   end) x = None.
   Proof.
     intros Hi Hs. apply String.eqb_neq in Hi.
-    destruct (lookup fr "inputs"); destruct (lam_name st id) as [n|]; cbn; rewrite ?Hi; try reflexivity;
+    destruct (lookup_frame sc "inputs") as [?|] eqn:Esi; [|destruct (lookup fr "inputs")];
+      destruct (lam_name st id) as [n|]; cbn; rewrite ?Hi; try reflexivity;
       (destruct (lookup_frame sc n) eqn:E; cbn; rewrite ?Hi; try reflexivity;
        destruct (String.eqb_spec x n) as [->|]; [|reflexivity];
        rewrite lookup_frame_rec_get in E; congruence).
@@ -736,11 +740,17 @@ Section Top.
       destruct Hf; cbn [call_passed fst]; try exact I.
       - (* built-in *) apply Hbi; auto.
       - (* closure *)
-        set (acc := (match lookup fr "inputs" with Some i => [("inputs", i)] | None => [] end ++
+        set (acc := (match lookup_frame sc "inputs" with
+                     | Some _ => []
+                     | None => match lookup fr "inputs" with Some i => [("inputs", i)] | None => [] end
+                     end ++
                      match lam_name st id with
                      | Some n => match lookup_frame sc n with Some _ => [] | None => [(n, this)] end
                      | None => [] end)).
-        set (acc' := (match lookup fr' "inputs" with Some i => [("inputs", i)] | None => [] end ++
+        set (acc' := (match lookup_frame sc' "inputs" with
+                      | Some _ => []
+                      | None => match lookup fr' "inputs" with Some i => [("inputs", i)] | None => [] end
+                      end ++
                       match lam_name st' id' with
                       | Some n => match lookup_frame sc' n with Some _ => [] | None => [(n, this')] end
                       | None => [] end)).
